@@ -258,6 +258,10 @@ pub fn doc_app(id: &str, kind: AppKind, rng: &mut Rng, cohorts: bool) -> DocApp 
     let uc = match kind {
         AppKind::Offer => {
             let mut u = UcSpec::ok(Some(&format!("9.{}.{}.0", rng.below(50), rng.below(50))));
+            // the manifest version is an opaque string for the client: not always a dotted quad of numbers
+            if rng.chance(1, 10) {
+                u.manifest_version = Some(rng.pick(&["9.1.2.3-rc2", "2024.10.stable", "v9", "9.1", "9.1.2.3.4", ""]).to_string());
+            }
             // url / package lists with 0, 1 or several entries (equal entries included)
             if rng.chance(1, 4) {
                 u.codebases = (0..rng.usize(4)).map(|k| format!("http://pkg{}.example/", k % 2)).collect();
@@ -273,7 +277,14 @@ pub fn doc_app(id: &str, kind: AppKind, rng: &mut Rng, cohorts: bool) -> DocApp 
     };
     DocApp {
         id: id.to_string(),
-        status: if kind == AppKind::ErrorStatus && rng.bool() { "error-unknownApplication".into() } else { "ok".into() },
+        // (an offer is an offer whatever the app-level status says)
+        status: if kind == AppKind::ErrorStatus && rng.bool() {
+            "error-unknownApplication".into()
+        } else if matches!(kind, AppKind::Offer | AppKind::NoUpdate) && rng.chance(1, 12) {
+            rng.pick(&["restricted", "error-somethingElse"]).to_string()
+        } else {
+            "ok".into()
+        },
         cohort: if cohorts { [gen_cohort_field(rng), gen_cohort_field(rng), gen_cohort_field(rng)] } else { [None, None, None] },
         updatecheck: uc,
     }
@@ -738,6 +749,8 @@ pub fn run_case_restart(case: &FlowCase, next_setups: &[Setup], rng: &mut Rng, e
     let w = make_world(case);
     let mut d = Driver::new(&w, &case.setup);
     d.max_steps = case.max_steps;
+    d.embedder_rate = case.embedder_rate;
+    d.drop_handles_after = case.drop_handles_after;
     let stop_idle = case.stop_idle;
     let mut end = d.run(case.sched, rng, |d| d.count_state(&StateSnap::Idle) >= stop_idle);
     let mut setups = vec![case.setup.clone()];
@@ -753,15 +766,17 @@ pub fn run_case_restart(case: &FlowCase, next_setups: &[Setup], rng: &mut Rng, e
         }
         drop(d);
         setups.push(ns.clone());
-        if case.restart_gap_ns > 0 {
+        if case.restart_gap_ns != 0 {
             let mut g = lock(&w);
+            // a negative gap: the wall clock comes back earlier than it was (RTC lost), monotonic time still advances
             g.wall_ns += case.restart_gap_ns;
-            g.mono_ns += case.restart_gap_ns;
+            g.mono_ns += case.restart_gap_ns.max(1_000_000_000);
             let (wall, mono) = (g.wall_ns, g.mono_ns);
             g.push(Ev::Clock { wall, mono });
         }
         d = Driver::restart(&w, ns);
         d.max_steps = case.max_steps;
+        d.embedder_rate = case.embedder_rate;
         let base_next = lock(&w).n_next;
         end = d.run(case.sched, rng, |d| {
             if extra_idle > 0 {
